@@ -4,7 +4,7 @@ import verif
 
 SPEC = {
     "props": "Props/C03.v",
-    "check_vo": ["Model/XdpDhcpCheck.vo"],
+    "check_vo": ["Model/XdpDhcpCheck.vo", "Model/XdpDhcpWire.vo"],
     "driver": "c03",
     "component": "bpf/dhcp_fastpath.c + ebpf.Loader + dhcp.Server cache maintenance",
     "driver_args": ["-shard", "25"],
@@ -15,7 +15,7 @@ SPEC = {
                 3: "the reply carries the userspace reply's client address, server id, mask, router, DNS, lease time",
                 4: "no reply => XDP_PASS and the frame is byte-identical",
                 5: "no reply for a released / declined / expired lease"},
-    "rule": "a case = one cache state (real dhcp.Server history on real kernel maps, or harness-written maps) and 3-9 request frames (lens: every length); per frame: kernel BPF_PROG_TEST_RUN and native run of the compiled program, Model xdp, and the real userspace server's reply to the same request in the same state; distinct = distinct case terms",
+    "rule": "a case = one real dhcp.Server history on real kernel maps (or harness-written maps) with request frames after its messages (life: two after every message; lens: every length; hw: every hlen); after every message the kernel maps, the lease table and the circuit-ID index are compared with the Model (digest); per frame: kernel BPF_PROG_TEST_RUN and native run of the compiled program, Model xdp, and the real userspace server's reply to the same request in the same state; distinct = distinct case terms",
     "assumptions": [
         "the kernel clock cannot be scripted: kernel runs use the measured CLOCK_MONOTONIC second; the expiry sweep is done in the native runner (same C file, helpers re-implemented)",
         "Server.Start is not executed: SetServerConfig is called with the arguments Start would use",
@@ -25,14 +25,15 @@ SPEC = {
     ],
     "modelled": ["bpf/dhcp_fastpath.c: dhcp_fastpath_prog with parse_packet_headers, get_dhcp_msg_type, extract_circuit_id_fixed, setup_reply_l2_headers, build_dhcp_options, prefix_to_mask, ip_checksum, adjust_tail",
                  "pkg/ebpf/loader.go: PoolAssignment/IPPool/ServerConfig marshalling, IPToUint32, MACToUint64, MakeCircuitIDKey",
-                 "pkg/dhcp/pool.go AddPool sync, pkg/dhcp/server.go updateFastPathCache + circuit-id entry of handleRequest, cache deletes of handleRelease/handleDecline/cleanupExpiredLeases"],
+                 "pkg/dhcp/pool.go AddPool sync, pkg/dhcp/server.go updateFastPathCache + circuit-id entry of handleRequest, cache deletes of handleRelease/handleDecline/cleanupExpiredLeases",
+                 "pkg/dhcp/server.go lease table and circuit-ID index bookkeeping of handleRequest (ACK branch; whether a REQUEST is ACKed is observed), dropCircuitIDBindings, handleRelease, handleDecline, cleanupExpiredLeases (slow_step)"],
     "trusted_extra": ["clang 14 (BPF and x86-64), Linux BPF verifier/JIT under BPF_PROG_TEST_RUN, cilium/ebpf v0.12.3, cbpf shim headers and native runner (docs/BPF.md)",
                       "insomniacslk/dhcp codec used to hand requests to the real server and to decode its replies"],
 }
 
 MANIFEST = {
-    "text": "The compiled dhcp_fastpath_prog (kernel BPF_PROG_TEST_RUN and native build) is compared byte for byte with a Rocq model of the program on raw map bytes; the maps are written by the real dhcp.Server / PoolManager / ebpf.Loader into real kernel maps (verif hook injects the map handles) and compared byte for byte with a model of the Go side; every reply is judged against what the real userspace server answers to the same request in the same state. Theorems over all maps, frames and clocks: an unanswered frame is passed unchanged; every transmitted reply has consistent lengths, a valid IP header checksum (for every header content), untouched xid/chaddr/htype/hlen/VLAN tags, yiaddr and options exactly as the maps say; released/declined/swept leases are not answered. Refuted with recorded witnesses (replayed on the real program every run) and proved under decidable guards: byte order of the cached addresses (K03a), lease expiry in Unix seconds compared with seconds since boot (K03c), ACK for a REQUEST the slow path NAKs (K03f), message type misread by the fixed-offset scan (K03g), missing server_config (K03h). Fixed on the way: IHL != 5 (4ab203e), DECLINE leaving the cache entry (94fa48d).",
-    "note": "Theorems are about the hand-written Model; the tie to bpf/dhcp_fastpath.c, pkg/ebpf/loader.go and pkg/dhcp is the differential run (sampled). The kernel clock is not scriptable (native runner does the expiry sweep). Server.Start is not executed. The monitor's executable wellformed function is not itself the subject of a theorem (its conjuncts are, in tx_facts).",
+    "text": "The compiled dhcp_fastpath_prog (kernel BPF_PROG_TEST_RUN and native build) is compared byte for byte with a Rocq model of the program on raw map bytes; the maps are written by the real dhcp.Server / PoolManager / ebpf.Loader into real kernel maps (verif hook injects the map handles) and compared byte for byte with a model of the Go side; the lease-table layer (lease table keyed by the hlen-byte hardware address, circuit-ID index, dropCircuitIDBindings, RELEASE / DECLINE / expiry) is modelled too and compared with the real lease table, index and maps after every handled message; request frames are sent through the program after every message of a lease life cycle (grant, renew, move to another circuit, release and decline with every option 50 / ciaddr combination, NAK, ageing, sweep) and every reply is judged against what the real userspace server answers to the same request in the same state; hlen 0..255 with non-zero chaddr padding, and IP identifications steered onto the folding boundaries of the reply header sum, are swept every run; the driver re-verifies the IP header checksum of every transmitted reply on the emitted bytes. Theorems over all maps, frames and clocks: an unanswered frame is passed unchanged; every transmitted reply has consistent lengths, a valid IP header checksum (for every header content), untouched xid/chaddr/htype/hlen/VLAN tags, yiaddr and options exactly as the maps say; released/declined/swept leases are not answered, and stay unanswered through any later cache events that do not ACK the same key; over every history of handled messages each subscriber_pools entry belongs to a lease of the lease table, so a client without lease is not answered. Refuted with recorded witnesses (replayed on the real program every run) and proved under decidable guards: byte order of the cached addresses (K03a), lease expiry in Unix seconds compared with seconds since boot (K03c), ACK for a REQUEST the slow path NAKs (K03f), message type misread by the fixed-offset scan (K03g), missing server_config (K03h); recorded with markers: six-byte cache key vs hlen-byte lease key (K03j), circuit-id looked up before the MAC in the kernel only (K03k). Fixed on the way: IHL != 5 (4ab203e), DECLINE leaving the cache entry (94fa48d).",
+    "note": "The history theorems cover untagged requests without circuit-id (the circuit-ID index invariant is not proved). Theorems are about the hand-written Model; the tie to bpf/dhcp_fastpath.c, pkg/ebpf/loader.go and pkg/dhcp is the differential run (sampled). The kernel clock is not scriptable (native runner does the expiry sweep). Server.Start is not executed. The monitor's executable wellformed function is not itself the subject of a theorem (its conjuncts are, in tx_facts).",
     "technique": "Rocq proof (byte-level rd/upd algebra, RFC 1071 checksum arithmetic, case analysis of the program) + three-way differential correspondence (kernel program / Model / real userspace server) with vm_compute evaluation inside Coq and a trace monitor",
     "design_ref": "DESIGN.md §8 C03, docs/C03.md",
 }
@@ -50,7 +51,7 @@ def run(ctx):
 def bpf_post(ctx, rc, bpfdir, obj):
     agg = {"kernel_bpf": None, "verifier_ok": None, "kernel_test_runs": 0, "native_runs": 0,
            "kernel_native_compared": 0, "kernel_native_disagree": 0, "native_faults": 0,
-           "slow_path_replies": 0, "slow_path_silent": 0}
+           "slow_path_replies": 0, "slow_path_silent": 0, "tx_bad_ip_checksum": 0, "tx_checksum_second_fold": 0}
     first = ""
     for d in ("run", "replay"):
         for mf in glob.glob(os.path.join(ctx.work, d, "*.meta.json")):
@@ -59,7 +60,7 @@ def bpf_post(ctx, rc, bpfdir, obj):
                 continue
             agg["kernel_bpf"] = m["kernel_bpf"]; agg["verifier_ok"] = m.get("verifier_ok")
             for k in ("kernel_test_runs", "native_runs", "kernel_native_compared", "kernel_native_disagree",
-                      "native_faults", "slow_path_replies", "slow_path_silent"):
+                      "native_faults", "slow_path_replies", "slow_path_silent", "tx_bad_ip_checksum", "tx_checksum_second_fold"):
                 agg[k] = max(agg[k], m.get(k, 0))
             first = first or m.get("kernel_native_disagree_first", "")
     agg["bpf_object_dir"] = bpfdir
@@ -70,7 +71,7 @@ def bpf_post(ctx, rc, bpfdir, obj):
              "no_longer_checks": ["corr:kernel test-run and native run of %s disagree" % obj], "first": first})
         print("VIOLATION property=%s replay=%s no-failing-input-found" % (ctx.pid, rp))
         rc = 1
-    ev = os.path.join(verif.VERIF, "evidence", ctx.pid + ".json")
+    ev = verif.evidence_path(ctx)
     if not ctx.replay and os.path.exists(ev):
         e = json.load(open(ev))
         e["coverage"].update(agg)
